@@ -641,6 +641,10 @@ class PDA:
                                            s_to,
                                            stack_to)
         for node in graph.nodes:
+            if "is_start" in graph.nodes[node] or \
+                    "is_final" in graph.nodes[node]:
+                # Also a state without any transition is a state
+                pda._states.add(pda._pda_obj_creator.to_state(node))
             if graph.nodes[node].get("is_start", False):
                 pda.set_start_state(node)
             if graph.nodes[node].get("is_final", False):
